@@ -164,6 +164,54 @@ def run(ctx):
                     ctx.check(ok, "R20.2", INST, label, msg=f"install_requirements with {label}: installs/record {got}, specified {[(exp_install, exp_record)]}",
                               key=f"install {label}", node=program.func(INST), rel="requirements.py", sample={"result": repr(got)})
 
+    ctx.rule("R20.5", "on reload the yaml configuration is refreshed before the installer's allow_all_imports gate is consulted; packages are installed before scripts are loaded", floor=1)
+    uid = "__init__.py::async_setup_entry.reload_scripts_handler"
+    pol = FlowPolicy(program, events=["update_yaml_config", "install_requirements", "load_scripts"], may_raise_all=False, cancel=False, record_atoms=False)
+    out = run_flow(program, uid, pol)
+    bad = None
+    n_paths = 0
+    for kind, c, desc in exits(out):
+        evs = [e[1] for e in c.trace if e[0] == "call"]
+        if "install_requirements" not in evs:
+            continue
+        n_paths += 1
+        i = evs.index("install_requirements")
+        if "update_yaml_config" not in evs[:i]:
+            bad = f"install_requirements runs before update_yaml_config (order {evs}): after `allow_all_imports` was switched off in configuration.yaml the next reload still installs packages"
+        elif "load_scripts" in evs[:i]:
+            bad = f"scripts are loaded before their requirements are installed (order {evs})"
+    ctx.check(n_paths > 0 and bad is None, "R20.5", uid, "update_yaml_config -> install_requirements -> load_scripts on every path", msg=f"reload handler: {bad or 'install_requirements is never called'}",
+              key="reload order config/install/load", node=program.func(uid), rel="__init__.py")
+
+    ctx.rule("R20.6", "re-importing the yaml configuration never drops the record of packages pyscript installed (it is not a configuration key)", floor=4)
+    uid = "config_flow.py::PyscriptConfigFlow.async_step_import"
+    CIP = consts["CONF_INSTALLED_PACKAGES"].v
+    for source in ("import", "user"):
+        for imp_has_flag in (True, False):
+            rec = DictV([(Const("foo"), Const("1.0.0"))])
+            data = DictV([(Const("allow_all_imports"), Const(True)), (Const("hass_is_global"), Const(False)), (Const(CIP), rec), (Const("apps"), DictV([]))])
+            imp = DictV([(Const("allow_all_imports"), Const(False))] if imp_has_flag else [(Const("apps"), DictV([(Const("a"), Const(1))]))])
+            stored = []
+
+            def upd(i, n, a, k, c, o, stored=stored):
+                stored.append(k.get("data"))
+                return [(c, NONE)]
+
+            pol = FlowPolicy(program, may_raise_all=False, cancel=False, globals_={**dict(consts), "SOURCE_IMPORT": Const("import"), "DOMAIN": Const("pyscript")},
+                             summaries={"json.dumps": lambda i, n, a, k, c, o: [(c, a[0])], "json.loads": lambda i, n, a, k, c, o: [(c, a[0])],
+                                        "self.hass.config_entries.async_entries": lambda i, n, a, k, c, o: [(c, ListV((ObjV("entry", "ConfigEntry"),), "list"))],
+                                        "self.hass.config_entries.async_update_entry": upd, "self.async_abort": lambda i, n, a, k, c, o: [(c, Sym(("abort",)))]})
+            pol.loop_unroll = 6
+            out = run_flow(program, uid, pol, args={"self": ObjV("self", "PyscriptConfigFlow"), "import_config": imp}, heap={"entry.data": data, "entry.source": Const(source)})
+            bad = None
+            if not exits(out):
+                bad = "no exit"
+            for d in stored:
+                if not isinstance(d, DictV) or d.get(Const(CIP)) != rec:
+                    bad = f"the entry is updated to {d!r}: the installed-packages record {rec!r} is gone, pyscript then treats its own packages as installed by someone else and never updates them"
+            ctx.check(bad is None, "R20.6", uid, f"entry created from {source}, imported config {'changes a flag' if imp_has_flag else 'changes apps'}",
+                      msg=f"async_step_import (entry source {source!r}, imported config {imp!r}): {bad}", key=f"import keeps record {source} {imp_has_flag}", node=program.func(uid), rel="config_flow.py")
+
     ctx.rule("R20.1", "nothing is installed without allow_all_imports (the packaging bootstrap excepted)", floor=1)
     f = program.func(INST)
     calls = [n2 for n2 in body_walk(f) if isinstance(n2, ast.Call) and call_name(n2) == "async_process_requirements"]
